@@ -262,7 +262,7 @@ static Token *copy_line(Token **rest, Token *tok) {
   Token head = {};
   Token *cur = &head;
 
-  for (; !tok->at_bol; tok = tok->next) {
+  for (; !tok->at_bol && tok->kind != TK_EOF; tok = tok->next) {
     cur = cur->next = copy_token(tok);
     cur->line_delta = tok->file->line_delta;
     cur->filename = tok->file->display_name;
